@@ -1,7 +1,8 @@
 """C07 — structs and arrays copy by value; pointers, references and self alias coherently.
 
 Theorems: lean/CbProps/C07.lean (lens laws of the value-tree model CbModel/Heap.lean: read-after-write,
-frame, copy independence, alias coherence, shape stability).
+frame, copy independence, alias coherence, shape stability) — stated for trees over ANY leaf type (Val α): integers,
+strings, doubles alike.
 Tie: a fixed small object graph (two structs with scalar, nested-struct and array members, a struct, a struct
 array, two int arrays, a scalar, a struct pointer and an int pointer); (1) the matrix of every operation kind
 alone, (2) random histories of operations; after every operation every cell is read through every available
@@ -20,7 +21,7 @@ PID = "C07"
 THEOREMS = {"CbProps.C07": ["CbProps.C07." + t for t in [
     "get_set_same", "get_set_disjoint", "get_set_below", "copy_independent", "alias_reads_agree",
     "alias_write_visible", "alias_write_visible_above", "write_frame", "byvalue_call_changes_nothing",
-    "write_keeps_shape", "copy_keeps_shape", "sameShape_get_isSome"]]}
+    "write_keeps_shape", "copy_keeps_shape", "sameShape_get_isSome", "modify_is_write", "modify_keeps_shape"]]}
 
 HDR = """struct In { int a; int b; };
 struct Out { int x; In in; int[2] ys; };
